@@ -93,7 +93,7 @@ static void run_keygen(uint64_t idx, pv_rng* rng) {
     bool protect = (idx % 16 == 3) && ks > 0 && ks <= (size_t)g_ps;
     uint8_t* key; uint8_t* block = NULL;
     if (protect) { key = g_page + g_ps + (g_ps - (long)ks) * (long)(idx & 1); memset(g_page, 0xEE, (size_t)g_ps * 3); }
-    else { block = malloc(ks ? ks : 1); key = block; memset(key, 0xEE, ks ? ks : 1); }
+    else { size_t off = idx % 4; block = malloc((ks ? ks : 1) + off); key = block + off; memset(key, 0xEE, ks ? ks : 1); }      /* any alignment; the block still ends right behind the key */
     pv_w->kdf_protect = protect;
     bool other_mask = idx % 7 == 3;
     if (other_mask) polyseed_enable_features(pv_randn(rng, 7));      /* keygen does not depend on the enabled-feature mask */
